@@ -220,10 +220,19 @@ def run(rep, ctx):
         pairs.append((rng.choice([d[0] for d in docs]), m, True))
         pairs.append((m, m, True))
     pairs += [(a, b, True) for a, b in rc.real_pages()[:6]]      # archived versions of real pages from the repository's fixtures
+    # identical content under different attributes of html / head / body (each view keeps those of ITS base page), and the reverse
+    same_content = '<p>same <b>content</b> on both sides</p><ul><li>x</li></ul>'
+    pairs_forced = []
+    for va, vb in (('<html lang="en"><head data-h="1"><title>t</title></head><body class="old" id="o">%s</body></html>',
+                    '<html lang="fr"><head data-h="2"><title>t</title></head><body class="new" data-n="1">%s</body></html>'),
+                   ('<body bgcolor="white">%s</body>', '<body>%s</body>'), ('<body>%s</body>', '<body onload="x()" class="a b">%s</body>')):
+        pairs.append((va % same_content, vb % same_content, True))
+        pairs.append((vb % same_content, va % same_content, True))
+        pairs_forced += [(va % same_content, vb % same_content, True, inc) for inc in ('all', 'deletions', 'insertions', 'combined')]
     rediffed = [m for m in mal if 'wm-diff-' in m]
     for f in FRAMESETS:
         pairs += [(f, f, False), (f, '<p>x</p>', False), ('<p>x</p>', f, False)]
-    forced = [(m, m2, True, inc) for m in rediffed for m2 in rediffed for inc in ('combined', 'all')]
+    forced = [(m, m2, True, inc) for m in rediffed for m2 in rediffed for inc in ('combined', 'all')] + pairs_forced
     crash = shape = 0
     refused = 0
     dist = {'well_formed_pairs': len(docs), 'malformed_pairs': len(pairs) - len(docs), 'includes': {}, 'refused': 0, 'out_of_model_domain': 0}
